@@ -33,7 +33,7 @@ BURSTS = [(0.11, 0.26, 70), (0.41, 0.47, 55), (0.72, 1.61, 70), (1.76, 1.87, 45)
           (3.61, 3.68, 70), (3.97, 4.19, 70), (4.43, 4.57, 45), (4.83, 5.39, 70)]
 TOTAL = 5.6
 TFS = [("S", "%S"), ("I", "%I"), ("F", "%h:%m:%s.%i")]
-PRINTFS = [None, "{id}|{start}|{end}|{duration}", "{id}\\t{start}\\t{end}"]
+PRINTFS = [None, "{id}|{start}|{end}|{duration}", "{id}\\t{start}\\t{end}", "{id}\u2192{start}\u2192{end}"]       # the last: a non-ASCII template
 
 
 _SYNTH = {}
@@ -108,7 +108,8 @@ def build_job(idx, vec, tmproot, rng):
     sr, sw, ch = kw["sampling_rate"], kw["sample_width"], kw["channels"]
     if kind == "wav":
         # a wav file carries its own parameters: -r/-c/-w (and their defaults) must not matter
-        fsr, fsw, fch = (16000, 2, 2) if idx % 2 else (8000, 2, 1)
+        # 22050 Hz: -j 0.25 is then exactly 5512.5 samples (round-half-even: 5512)
+        fsr, fsw, fch = [(8000, 2, 1), (16000, 2, 2), (22050, 2, 1), (22050, 2, 2)][(idx // 3) % 4]
     else:
         fsr, fsw, fch = sr, sw, ch
     data = synth(fsr, fsw, fch)
@@ -306,7 +307,17 @@ def check(prop, tier, replay=None):
             src = data if meta["kind"] == "stdin" else meta["path"]
             if meta["kind"] == "stdin":
                 api_kw.pop("large_file", None)
-            regs = list(core.split(src, **api_kw))
+            if (Fraction(vec["kw"]["analysis_window"], U) * fsr).denominator != 1:
+                # -a times the rate is not a whole number of samples (0.01 s at 22050 Hz): split(file, analysis_window=a) counts windows of a
+                # seconds, split(AudioReader(file, block_dur=a)) counts windows of the reader's actual block duration (C06 defines w that way
+                # for the two kinds of input) and the two can differ by one window.  The command line reads through an AudioReader with
+                # block_dur = -a, so that is the API call its parameters correspond to (observation O11 in DESIGN.md).
+                from auditok import util as _u
+                rkw = {k_: v_ for k_, v_ in api_kw.items() if k_ in ("sampling_rate", "sample_width", "channels", "max_read", "audio_format", "large_file")}
+                skw = {k_: v_ for k_, v_ in api_kw.items() if k_ in ("min_dur", "max_dur", "max_silence", "drop_trailing_silence", "strict_min_dur", "energy_threshold", "use_channel")}
+                regs = list(core.split(_u.AudioReader(src, block_dur=api_kw["analysis_window"], **rkw), **skw))
+            else:
+                regs = list(core.split(src, **api_kw))
         except Exception as exc:  # noqa
             api_err = type(exc).__name__
         for g in regs:
@@ -317,7 +328,7 @@ def check(prop, tier, replay=None):
         lines = []
         unparsed = 0
         pf = meta["printf"]
-        sep = " " if pf is None else ("|" if "|" in pf else "\t")
+        sep = " " if pf is None else ("|" if "|" in pf else ("\u2192" if "\u2192" in pf else "\t"))
         hasd = pf is not None and "duration" in pf
         for ln in [x for x in r["stdout"].split("\n") if x != ""]:
             parts = ln.split(sep)
